@@ -19,6 +19,8 @@ def run(res, replay=None):
     import translate_step; (res.proof is not None) and translate_step.run(res.proof, pid=res.pid, tie='guards')
     # pinned reading of the mutation-configuration code (_get_P, get_mutation_config core, get_mutation_configs, _get_configs, _unfold, _get_partitions): re-check the CURRENT source against it and proofs/GenMutationEquiv.v
     import translate_step; (res.proof is not None) and translate_step.run(res.proof, pid=res.pid, tie='mutation')
+    # pinned reading of phasegen/utils.py (takewhile_inclusive / take_n, through which the configurations are consumed; parallelize): re-check the CURRENT source against it and proofs/GenUtilsEquiv.v
+    import translate_step; (res.proof is not None) and translate_step.run(res.proof, pid=res.pid, tie='utils')
     rng = random.Random(res.seed)
     res.rule = ('mutation stream: single-epoch configurations (n<=4, thorough n<=5; 1-2 demes; three models; dyadic theta '
                 'in {0, 1/16, 1/4, 1, 2}; plus Beta/Dirac with n = 5..7 in one deme); every unfolded configuration with <= 3 (thorough 4) mutations: probability '
